@@ -24,6 +24,7 @@ type HarnessSpec struct {
 	Bounds   string   `json:"bounds,omitempty"`
 	Lemma    string   `json:"lemma,omitempty"`
 	MaxPaths int      `json:"max_paths,omitempty"`
+	MaxSecs  float64  `json:"max_secs,omitempty"`
 	Loop     int      `json:"loop,omitempty"`
 }
 
@@ -310,6 +311,10 @@ func cmdCheck(args []string) int {
 		if h.MaxPaths > 0 {
 			eng.maxPaths = h.MaxPaths
 		}
+		eng.maxSecs = 900
+		if h.MaxSecs > 0 {
+			eng.maxSecs = h.MaxSecs
+		}
 		eng.loopBound = 128
 		if h.Loop > 0 {
 			eng.loopBound = h.Loop
@@ -449,7 +454,7 @@ func cmdCheck(args []string) int {
 						found = true
 						if !knownSeen[fid] {
 							knownSeen[fid] = true
-							knownLines = append(knownLines, fmt.Sprintf("KNOWN-FINDING: property=%s %s", prop, strings.TrimSpace(strings.TrimPrefix(kf.text, "finding:"))))
+							knownLines = append(knownLines, fmt.Sprintf("KNOWN-FINDING: property=%s %s", prop, strings.TrimSpace(strings.TrimPrefix(strings.TrimSpace(strings.TrimPrefix(kf.text, "finding:")), "property="+prop))))
 						}
 					}
 				}
@@ -658,6 +663,43 @@ func cmdReplay(args []string) int {
 	return 0
 }
 
+// buildHostTables regenerates host-function tables by executing the real code natively.
 func (e *Engine) buildHostTables(names []string, files map[string]string, tier string) error {
-	return fmt.Errorf("host tables not implemented")
+	ovJSON, err := writeOverlayJSON(files)
+	if err != nil {
+		return err
+	}
+	for _, n := range names {
+		pkgRel := ""
+		switch n {
+		case "HashIndex":
+			pkgRel = "pkg/execution/util/parallel"
+		default:
+			return fmt.Errorf("unknown host table %s", n)
+		}
+		cmd := exec.Command("go", "test", "-tags", "verif", "-overlay", ovJSON, "-vet=off", "-count=1",
+			"-run", "^TestVerifHostTable$", "-v", "./"+pkgRel)
+		cmd.Dir = repoDir
+		cmd.Env = append(os.Environ(), "GOFLAGS=-mod=mod", "GOPROXY=off", "GOSUMDB=off", "GOTOOLCHAIN=local",
+			"VERIF_HOSTTABLE=1", "VERIF_TIER="+tier)
+		out, err := cmd.CombinedOutput()
+		if err != nil {
+			return fmt.Errorf("host table %s: %v\n%s", n, err, tail(string(out), 30))
+		}
+		cnt := 0
+		for _, l := range strings.Split(string(out), "\n") {
+			if !strings.HasPrefix(l, "VERIF-HOSTTABLE ") {
+				continue
+			}
+			f := strings.Split(strings.TrimPrefix(l, "VERIF-HOSTTABLE "), "\t")
+			if len(f) == 3 {
+				e.hostTable[f[0]+"\x00"+f[1]] = f[2]
+				cnt++
+			}
+		}
+		if cnt == 0 {
+			return fmt.Errorf("host table %s is empty", n)
+		}
+	}
+	return nil
 }
